@@ -690,6 +690,8 @@ def run_system(ctx, replay_history=None):
 def run(ctx, only_cases=None):
     _run(ctx, only_cases)
     if only_cases is None:
+        from lib import authoropts
+        authoropts.check(ctx, relevant=BYPASSES)      # "bypassed ... per-author setting": several authors in one file
         run_system(ctx)
     if only_cases is None and ctx.spec_fail:
         first = next((f for f in ctx.spec_fail if in_quantifier(f['input'])), None)
